@@ -114,8 +114,17 @@ class Rig:
     def log(self):
         return STATE["log"]
 
+    def second(self):
+        """A second SFTP session (own channel, own SFTPServer instance) on the same transport."""
+        import paramiko
+        if getattr(self, "sftp2", None) is None:
+            self.sftp2 = paramiko.SFTPClient.from_transport(self.tc)
+        return self.sftp2
+
     def close(self):
-        for x in (self.sftp, self.tc, self.ts):
+        for x in (getattr(self, "sftp2", None), self.sftp, self.tc, self.ts):
+            if x is None:
+                continue
             try:
                 x.close()
             except Exception:
@@ -288,13 +297,37 @@ def seq_bytes(seed, i, n):
     return random.Random("%s-%d" % (seed, i)).randbytes(n)
 
 
+REQ = 32768     # SFTPFile splits a write into requests of this many bytes
+
+
 def gen_seq(rng):
-    size = rng.choice([300, 1000, 5000, 9000, CHUNK, CHUNK + 5, 70000, 200000, rng.randrange(256, 300000)])
-    size0 = size
+    """2-4 check-file requests on ONE handle, opened 'r+', 'a+' or 'w+', with the file changing in
+    between (sequential writes through the same handle continuing where the server's cached position
+    is, appends by another writer, overwrites), other handles being opened and closed meanwhile in
+    the same and in a second session."""
+    mode = rng.choice(["r+", "r+", "a+", "a+", "w+", "w+"])
+    size0 = rng.choice([300, 1000, 5000, 9000, CHUNK, CHUNK + 5, 70000, 200000, rng.randrange(256, 300000)])
+    size = 0 if mode == "w+" else size0
     steps = []
+    marks = [0]
+
+    def add_write(kind):
+        nonlocal size
+        m = rng.choice([256, 1000, REQ - 1, REQ, REQ + 1, 2 * REQ, 80000, 3 * REQ, rng.randrange(1, 100000)])
+        steps.append({"kind": kind, "n": m})
+        marks.extend([size] + [size + j * REQ for j in range(1, m // REQ + 1)])
+        size += m
+
+    if mode == "w+":
+        add_write("append-handle")
     n = rng.randrange(2, 5)
     for i in range(n):
-        start = rng.choice([0, 0, 0, rng.randrange(0, size + 1), max(0, size - 300)])
+        if rng.random() < 0.4:
+            steps.append({"kind": rng.choice(["open-other", "open-other", "open-other-session2", "close-other",
+                                              "listdir"])})
+        start = rng.choice([0, 0, rng.choice(marks), rng.choice(marks), marks[-1], rng.randrange(0, size + 1),
+                            max(0, size - 300)])
+        start = min(start, size)
         rest = max(0, size - start)
         length = rng.choice([0, 0, 0, 0, rest, rest + 1000, rng.randrange(0, rest + 1)])
         eff = rest if length == 0 else min(length, rest)
@@ -304,43 +337,54 @@ def gen_seq(rng):
         steps.append({"kind": "check", "alg": rng.choice(["md5", "sha1"]), "start": start, "length": length,
                       "block_size": bs})
         if i < n - 1:
-            k = rng.choice(["append-handle", "append-handle", "append-local", "append-local", "overwrite-handle",
+            k = rng.choice(["append-handle", "append-handle", "append-handle", "append-local", "overwrite-handle",
                             "none"])
-            if k.startswith("append"):
+            if k == "append-handle":
+                add_write(k)
+            elif k == "append-local":
                 m = rng.choice([1, 255, 256, 1000, CHUNK, rng.randrange(1, 100000)])
                 steps.append({"kind": k, "n": m})
                 size += m
-            elif k == "overwrite-handle" and size > 0:
+            elif k == "overwrite-handle" and size > 0 and mode != "a+":
                 off = rng.randrange(0, size)
                 m = min(size - off, rng.choice([1, 100, 5000, CHUNK]))
                 steps.append({"kind": k, "off": off, "n": m})
-    return {"seq": True, "size0": size0, "data_seed": rng.randrange(1 << 30), "steps": steps}
+    return {"seq": True, "mode": mode, "size0": size0, "data_seed": rng.randrange(1 << 30), "steps": steps}
 
 
 def run_seq(ctx, rig_box, root, repo, case, findings, cases, name="q"):
     """check -> change -> check ... on one open handle; every check against the file as it is then."""
+    mode = case.get("mode", "r+")
     data = bytearray(seq_bytes(case["data_seed"], -1, case["size0"]))
     path = os.path.join(root, name)
     with open(path, "wb") as fh:
         fh.write(data)
-    fobj = rig_box[0].sftp.open("/" + name, "r+")
+    others = []
+    for j in range(3):      # other served files, all different from the one under test
+        with open(os.path.join(root, "other%d" % j), "wb") as fh:
+            fh.write(seq_bytes(case["data_seed"], -10 - j, 700 + 1000 * j))
+    rig = rig_box[0]
+    fobj = rig.sftp.open("/" + name, mode)
+    if mode == "w+":
+        data = bytearray()
     changed = False
     try:
         for i, st in enumerate(case["steps"]):
             k = st["kind"]
             if k == "check":
-                r = check_one(ctx, rig_box[0], fobj, bytes(data), st["alg"],
+                r = check_one(ctx, rig, fobj, bytes(data), st["alg"],
                               (st["start"], st["length"], st["block_size"]), findings, report=case, changed=changed)
                 if r is not None:
                     cases.append(r)
-                if rig_box[0].abort:
-                    rig_box[0].close()
+                if rig.abort:
+                    rig.close()
                     rig_box[0] = Rig(repo, root)
                     return
             elif k.startswith("append"):
                 blob = seq_bytes(case["data_seed"], i, st["n"])
                 if k == "append-handle":
-                    fobj.seek(len(data))
+                    if mode != "a+":
+                        fobj.seek(len(data))
                     fobj.write(blob)
                     fobj.flush()
                 else:
@@ -355,15 +399,24 @@ def run_seq(ctx, rig_box, root, repo, case, findings, cases, name="q"):
                 fobj.flush()
                 data[st["off"]:st["off"] + len(blob)] = blob
                 changed = True
+            elif k in ("open-other", "open-other-session2"):
+                cli = rig.second() if k.endswith("2") else rig.sftp
+                others.append(cli.open("/other%d" % (len(others) % 3), "r"))
+            elif k == "close-other" and others:
+                others.pop(0).close()
+            elif k == "listdir":
+                rig.sftp.listdir("/")
     finally:
-        try:
-            fobj.close()
-        except Exception:
-            pass
-        try:
-            os.remove(path)
-        except OSError:
-            pass
+        for o in others + [fobj]:
+            try:
+                o.close()
+            except Exception:
+                pass
+        for q in [path] + [os.path.join(root, "other%d" % j) for j in range(3)]:
+            try:
+                os.remove(q)
+            except OSError:
+                pass
 
 
 def run_queries(ctx, rig_box, root, repo, sizes, nq, findings, cases):
@@ -416,7 +469,8 @@ def run(ctx):
                 "the 64 KiB read chunk); per file, (offset, length, block_size) with offsets at/around chunk "
                 "multiples and EOF, lengths 0 / to EOF / past EOF / chunk multiples / 2^40, block sizes 0, 256.., "
                 "(non-)multiples of 64 KiB, < 256 (must be refused); md5 and sha1 alternating; every call under a "
-                "%.0f s watchdog; plus sequences on ONE open handle: check, the file grows (write through the handle or by "
+                "%.0f s watchdog; plus sequences on ONE open handle (opened r+, a+ or w+; other handles opened and closed "
+                "meanwhile in the same and in a second session on the transport): check, the file grows (write through the handle or by "
                 "another writer) or is overwritten through the handle, check again (2-4 checks, mostly length 0), every "
                 "check compared with the file as it is then; a case is non-trivial when distinct and at least one block "
                 "is hashed" % WATCHDOG)
@@ -443,8 +497,22 @@ def run(ctx):
                 rig_box[0] = Rig(ctx.repo, root)
             for i in range(25 * scale):
                 case = gen_seq(ctx.rng)
+                if i == 1:      # upload then verify through the same handle
+                    case = {"seq": True, "mode": "w+", "size0": 900, "data_seed": 11, "steps": [
+                        {"kind": "append-handle", "n": 20000},
+                        {"kind": "check", "alg": "sha1", "start": 0, "length": 0, "block_size": 0},
+                        {"kind": "append-handle", "n": 80000},
+                        {"kind": "check", "alg": "md5", "start": 20000, "length": 0, "block_size": 4096},
+                        {"kind": "check", "alg": "md5", "start": 20000 + 2 * REQ, "length": 0, "block_size": 0}]}
+                if i == 2:      # append mode: the server's file object starts at end of file
+                    case = {"seq": True, "mode": "a+", "size0": 3000, "data_seed": 12, "steps": [
+                        {"kind": "check", "alg": "md5", "start": 0, "length": 0, "block_size": 0},
+                        {"kind": "open-other"}, {"kind": "open-other-session2"}, {"kind": "close-other"},
+                        {"kind": "open-other"},
+                        {"kind": "append-handle", "n": 500},
+                        {"kind": "check", "alg": "sha1", "start": 0, "length": 0, "block_size": 1000}]}
                 if i == 0:      # the plain pattern: whole-file hash, file grows, whole-file hash again
-                    case = {"seq": True, "size0": 5000, "data_seed": 7, "steps": [
+                    case = {"seq": True, "mode": "r+", "size0": 5000, "data_seed": 7, "steps": [
                         {"kind": "check", "alg": "md5", "start": 0, "length": 0, "block_size": 0},
                         {"kind": "append-handle", "n": 3000},
                         {"kind": "check", "alg": "md5", "start": 0, "length": 0, "block_size": 0},
